@@ -42,6 +42,90 @@ func (p prefixReader) ReadHashes(ix []int64) ([]tlog.Hash, error) {
 	return p.lg.ReadHashes(ix)
 }
 
+// hugeLogs checks TreeHash, ProveRecord/CheckRecord and ProveTree/CheckTree on logs of identical
+// records with sizes around every power of two up to 2^62 and with sparse and dense bit patterns.
+func hugeLogs(r *fw.Run) {
+	l := fw.NewLocal()
+	defer r.Merge(l)
+	leaf := tlog.RecordHash([]byte("same\n"))
+	level := []tlog.Hash{leaf}
+	for i := 1; i <= 63; i++ {
+		level = append(level, tlog.NodeHash(level[i-1], level[i-1]))
+	}
+	rd := tlog.HashReaderFunc(func(ix []int64) ([]tlog.Hash, error) {
+		out := make([]tlog.Hash, len(ix))
+		for i, x := range ix {
+			if x < 0 {
+				return nil, fmt.Errorf("negative index %d", x)
+			}
+			lev, _ := tlog.SplitStoredHashIndex(x)
+			out[i] = level[lev]
+		}
+		return out, nil
+	})
+	// RFC 6962 MTH of n identical records
+	memo := map[int64]tlog.Hash{}
+	var mth func(n int64) tlog.Hash
+	mth = func(n int64) tlog.Hash {
+		if n&(n-1) == 0 {
+			return level[bits.TrailingZeros64(uint64(n))]
+		}
+		if h, ok := memo[n]; ok {
+			return h
+		}
+		k := int64(1) << uint(63-bits.LeadingZeros64(uint64(n-1)))
+		h := tlog.NodeHash(mth(k), mth(n-k))
+		memo[n] = h
+		return h
+	}
+	var sizes []int64
+	for k := uint(1); k <= 62; k++ {
+		for _, d := range []int64{-3, -2, -1, 0, 1, 2, 3} {
+			if n := int64(1)<<k + d; n >= 1 && n <= 1<<62 {
+				sizes = append(sizes, n)
+			}
+		}
+	}
+	for k := uint(8); k <= 61; k += 3 {
+		sizes = append(sizes, int64(1)<<k|int64(1)<<(k/2), (int64(1)<<k-1)&^(int64(1)<<(k/2)), int64(0x5555555555555555)>>(62-k), int64(0x2aaaaaaaaaaaaaaa)>>(62-k), 3<<(k-1)-1)
+	}
+	sizes = append(sizes, 0x5ffffffffffff, 0x207fffffffffffff, 0x1017fffffffffffe, 1<<62-1)
+	r.Bounds["virtual_huge_logs"] = fmt.Sprintf("%d sizes up to 2^62 (around every power of two, sparse and dense bit patterns), identical records", len(sizes))
+	seen := map[int64]bool{}
+	for _, n := range sizes {
+		if n < 1 || seen[n] {
+			continue
+		}
+		seen[n] = true
+		l.States++
+		l.Execs++
+		l.Transitions++
+		want := mth(n)
+		got, err := tlog.TreeHash(n, rd)
+		if err != nil || got != want {
+			r.Violation(fmt.Sprintf("huge:treehash:%d", n), fmt.Sprintf("TreeHash(%d) of a log of identical records = %v, %v; RFC 6962 MTH = %v", n, got, err, want), caseT{Kind: "huge", N: n})
+			continue
+		}
+		l.Nontrivial++
+		for _, m := range []int64{0, 1, n / 2, n - 2, n - 1, int64(1)<<uint(62-bits.LeadingZeros64(uint64(n))) - 1} {
+			if m < 0 || m >= n {
+				continue
+			}
+			l.Execs += 2
+			p, err := tlog.ProveRecord(n, m, rd)
+			if err != nil || tlog.CheckRecord(p, n, want, m, leaf) != nil {
+				r.Violation(fmt.Sprintf("huge:record:%d:%d", n, m), fmt.Sprintf("ProveRecord(%d,%d) over a log of identical records gives a proof that CheckRecord rejects against the RFC 6962 root (err=%v)", n, m, err), caseT{Kind: "huge", N: n, M: m})
+			}
+			if m >= 1 {
+				tp, err := tlog.ProveTree(n, m, rd)
+				if err != nil || tlog.CheckTree(tp, n, want, m, mth(m)) != nil {
+					r.Violation(fmt.Sprintf("huge:tree:%d:%d", n, m), fmt.Sprintf("ProveTree(%d,%d) over a log of identical records gives a proof that CheckTree rejects against the RFC 6962 roots (err=%v)", n, m, err), caseT{Kind: "huge", N: n, M: m})
+				}
+			}
+		}
+	}
+}
+
 type aliasReader struct {
 	store    []tlog.Hash
 	memo     map[string][]tlog.Hash
@@ -342,6 +426,10 @@ func Run(r *fw.Run) {
 	// unchanged, and the same call repeated gives the same (correct) result.
 	aliasing(r)
 
+	// virtual huge logs: a log whose records are all identical has one hash per level, so a HashReader for
+	// a log of up to 2^62 records and the RFC 6962 tree hash of any size can be computed without storing it
+	hugeLogs(r)
+
 	// record lengths: the leaf hash is SHA-256(0x00 || data) for every length (block boundaries, buffers)
 	{
 		l := fw.NewLocal()
@@ -521,6 +609,8 @@ func Replay(r *fw.Run, raw json.RawMessage) {
 		history(r, c.Pattern, n+1, n+1)
 	case "aliasing":
 		aliasing(r)
+	case "huge":
+		hugeLogs(r)
 	case "recordhash":
 		r.Note("record-hash cases are re-run by the full check")
 	case "coord":
